@@ -21,6 +21,7 @@ import (
 	"github.com/cossacklabs/acra/logging"
 	"github.com/cossacklabs/acra/poison"
 	"github.com/cossacklabs/acra/pseudonymization"
+	tokenCommon "github.com/cossacklabs/acra/pseudonymization/common"
 	tokenStorage "github.com/cossacklabs/acra/pseudonymization/storage"
 	"github.com/cossacklabs/acra/sqlparser"
 	myDialect "github.com/cossacklabs/acra/sqlparser/dialect/mysql"
@@ -70,6 +71,7 @@ type PgWorld struct {
 	Schema   config.TableSchemaStore
 	Censor   *acracensor.AcraCensor
 	Poison   *poison.CallbackStorage
+	Tokenizer tokenCommon.Pseudoanonymizer
 	Panics   []string
 	Stacks   []string
 	runRef   *SessionRunRef
@@ -188,6 +190,7 @@ func NewPgWorld(w *kernel.World, rng *kernel.RNG, cfg PgWorldConfig) (*PgWorld, 
 	if err != nil {
 		return nil, err
 	}
+	pw.Tokenizer = tokenizer
 	pw.Poison = poison.NewCallbackStorage()
 	if cfg.PoisonCalls != nil {
 		pw.Poison.AddCallback(cfg.PoisonCalls)
